@@ -21,6 +21,7 @@ ASSUMPTIONS = ["every member subscribes to at least one topic and at least one t
                "retry, as Coordinator._join_and_sync arranges"]
 REACH_MIN = {"need_topic_partitions_path": {"quick": 50, "thorough": 500},
              "identical_subscriptions": {"quick": 200, "thorough": 2000},
+             "subscription_lists_with_a_repeated_topic": {"quick": 100, "thorough": 1000},
              "member_subscribed_to_nothing_with_partitions": {"quick": 30, "thorough": 300},
              "e2e_leader_assignments": {"quick": 40, "thorough": 842},
              "e2e_assignments_after_partition_growth": {"quick": 8, "thorough": 168}}
@@ -54,7 +55,7 @@ def gen_config(rng):
     ids = rng.sample(ALPHABET, nm)
     nt = rng.choice([1, 1, 2, 2, 3, 4])
     topics = rng.sample(TOPICS, nt)
-    mode = rng.choice(["identical", "identical", "overlap", "disjoint", "loner", "random"])
+    mode = rng.choice(["identical", "identical", "overlap", "disjoint", "loner", "random", "repeats"])
     subs = {}
     if mode == "identical":
         for m in ids:
@@ -69,6 +70,17 @@ def gen_config(rng):
         if extra:
             subs[rng.choice(ids)] = [rng.choice(extra)]
             topics = topics + [subs[ids[0]][0]] if False else topics
+    elif mode == "repeats":
+        # a subscription list may name a topic more than once (nothing in the protocol forbids it): as many entries
+        # as there are topics, but not all of them distinct
+        for m in ids:
+            subs[m] = list(topics)
+        if len(topics) > 1:
+            for m in rng.sample(ids, rng.randint(1, len(ids))):
+                sub = rng.sample(topics, rng.randint(1, len(topics) - 1))
+                subs[m] = list(sub) + [rng.choice(sub) for _ in range(len(topics) - len(sub))]
+        else:
+            subs[ids[0]] = [topics[0], topics[0]]
     else:
         for m in ids:
             k = rng.randint(1, len(topics))
@@ -106,7 +118,9 @@ def check_config(res, proto, common, KafkaCodec, NeedTP, ids, subs, parts, rng, 
             res.violate("subscription-metadata/wrong-topics", "member metadata does not carry its subscription",
                         member=m, want=subs[m], got=got)
         res.ob("subscription_metadata")
-    identical = len(set(tuple(sorted(s)) for s in subs.values())) == 1
+    identical = len(set(tuple(sorted(set(s))) for s in subs.values())) == 1
+    if any(len(set(s)) != len(s) for s in subs.values()):
+        res.hit("subscription_lists_with_a_repeated_topic")
     if identical:
         res.hit("identical_subscriptions")
     if any(all(not parts[t] for t in subs[m]) for m in ids) and total_parts:
